@@ -12,16 +12,16 @@ import (
 )
 
 func init() {
-	register(&Rule{ID: "P-SWITCH-DEFAULT", Props: []string{"C04", "C01"}, Floor: 5,
+	register(&Rule{ID: "P-SWITCH-DEFAULT", Props: []string{"C04", "C01"}, Floor: 2,
 		Doc: "every switch on a lexer.TokenType in the parser is exhaustive: it has a default clause, or no case body can fall out of the switch (so the code after it handles exactly the unmatched tokens); an unmatched token must never merge silently with a handled one",
 		Run: rulePSwitchDefault})
 	register(&Rule{ID: "P-CHAIN-ELSE", Props: []string{"C04", "C12"}, Floor: 0,
 		Doc: "every if/else-if chain (>= 2 arms) that dispatches on a token type in the parser ends in an else, or every arm leaves the chain",
 		Run: rulePChainElse})
-	register(&Rule{ID: "P-ERRFLOW", Props: []string{"C04", "C08", "C16", "C03"}, Floor: 150,
+	register(&Rule{ID: "P-ERRFLOW", Props: []string{"C04", "C08", "C16", "C03"}, Floor: 113,
 		Doc: "in every API-reachable function that returns an error, the block of each `if err != nil` ends by returning a non-nil error (or panicking) and contains no success return",
 		Run: rulePErrFlow})
-	register(&Rule{ID: "P-CHARCLASS", Props: []string{"C04", "C16", "C19"}, Floor: 10,
+	register(&Rule{ID: "P-CHARCLASS", Props: []string{"C04", "C16", "C19"}, Floor: 4,
 		Doc: "every predicate over a rune/byte built from >= 2 comparisons with constants (lexer, parser) accepts exactly one of the grammar's character classes (digit, letter/underscore, letter/digit/underscore, hex a-f, hex A-F, whitespace or its complement), and each scanner uses only the classes the grammar gives it",
 		Run: rulePCharClass})
 	register(&Rule{ID: "P-REJECT-CONJ", Props: []string{"C04", "C16"}, Floor: 1,
